@@ -727,6 +727,10 @@ pub fn scenario(name: &str, params: &Value) -> Scenario {
                     feed(&mut sys, &crate::props::common::inbound(1, false, 3, &[], "x").encode(), false);
                     feed(&mut sys, &crate::props::common::pubrel_in(4).encode(), false);
                 }
+                // (which injected answers were really consumed is part of the evidence)
+                if sys.w.wire.borrow().zero_answers > 0 {
+                    sys.m.hits.push("write-zero-answered");
+                }
                 finish(sys, ex);
             })
         }
